@@ -262,10 +262,9 @@ def run_in_process(plan) -> tuple[list, dict]:
 # child process: the real web.run_app, signalling itself once it is up
 
 
-def child_main(argv: list[str]) -> int:
+def child_one(plan) -> dict:
     import signal
 
-    plan = json.loads(argv[0])
     log: list = []
     out = {"run_app": None, "running": False}
     app = build_app(plan, log)
@@ -283,13 +282,25 @@ def child_main(argv: list[str]) -> int:
         out["run_app"] = "ok"
     except BaseException as e:
         out["run_app"] = _tn(e)
-    returned = len(log)  # events after this index happened after run_app returned (none expected)
-    sys.stdout.write("C20-CHILD " + json.dumps({"log": log, "out": out, "returned": returned}) + "\n")
-    sys.stdout.flush()
+    finally:
+        sock.close()
+    log.append(("entry", "done"))
+    return {"log": log, "out": out}
+
+
+def child_main(argv: list[str]) -> int:
+    """stdin: a JSON list of plans; one 'C20-CHILD <json>' line per plan on stdout."""
+    plans = json.loads(sys.stdin.read())
+    for plan in plans:
+        res = child_one(plan)
+        sys.stdout.write("C20-CHILD " + json.dumps(res) + "\n")
+        sys.stdout.flush()
     return 0
 
 
-def run_in_child(plan, timeout: float = 60.0) -> tuple[list, dict]:
+def run_in_child(plans: list, timeout: float = 120.0) -> list:
+    """Run the plans through the real web.run_app in one fresh interpreter; returns [(log, out), ...]
+    (shorter than `plans` if the child died or hung: the caller reports that as inconclusive)."""
     import subprocess
 
     env = dict(os.environ)
@@ -297,16 +308,23 @@ def run_in_child(plan, timeout: float = 60.0) -> tuple[list, dict]:
     env["AIOHTTP_NO_EXTENSIONS"] = "1"
     env["PYTHONDONTWRITEBYTECODE"] = "1"
     env["PYTHONWARNINGS"] = "ignore"
-    p = subprocess.run(
-        [sys.executable, "-m", "vlib.lifecycle", json.dumps(plan)],
-        cwd=target.VERIF, env=env, capture_output=True, text=True, timeout=timeout,
-    )
-    for line in p.stdout.splitlines():
+    try:
+        p = subprocess.run(
+            [sys.executable, "-m", "vlib.lifecycle"], input=json.dumps(plans),
+            cwd=target.VERIF, env=env, capture_output=True, text=True, timeout=timeout,
+        )
+        stdout, rc, err = p.stdout, p.returncode, p.stderr
+    except subprocess.TimeoutExpired as e:
+        stdout = e.stdout.decode() if isinstance(e.stdout, bytes) else (e.stdout or "")
+        rc, err = "timeout", ""
+    res = []
+    for line in stdout.splitlines():
         if line.startswith("C20-CHILD "):
             d = json.loads(line[10:])
-            d["out"]["rc"] = p.returncode
-            return [tuple(e) for e in d["log"]], d["out"]
-    raise RuntimeError(f"child produced no log rc={p.returncode} err={p.stderr[-800:]}")
+            res.append(([tuple(e) for e in d["log"]], d["out"]))
+    if len(res) < len(plans):
+        res.append((None, {"child-failed": rc, "stderr": err[-600:]}))
+    return res
 
 
 if __name__ == "__main__":
